@@ -91,6 +91,9 @@ class Element:
         self.model.memo[self.name] = {}
 
     def term(self, time="t"):
+        if self._elements.vector_size() > 0:
+            # the element itself (not one of its members) stands where a single value is expected, e.g. abs(vector), vector > 1.0
+            raise OperatorError("The arrayed element '{}' cannot be used where a single value is expected".format(self.name))
         return "model.memoize('{}',{})".format(self.name, time)
 
     @property
